@@ -35,10 +35,24 @@ def busStep (terms : List Json) : Option String := do
   pure (" || ".intercalate ((List.range n).map fun i =>
     showTrace (proj i evs) ((fin[i]?.map (·.ds.outcome)).getD .blocked)))
 
+def opOf (j : Json) : Option HOp := do
+  let t ← fNat j "t"
+  match ← fStr j "op" with
+  | "to" => pure ⟨t, .toOp (← fNat j "target")⟩
+  | "set" => pure ⟨t, .setState (← fNat j "state")⟩
+  | "get" => pure ⟨t, .getState⟩
+  | _ => none
+
+/-- a history: uses of several `Terminal` objects one after the other, each terminal with its own script -/
+def histStep (j : Json) : Option String := do
+  let scripts ← (← fArr j "scripts").mapM fun s => respsOf (Json.mkObj [("responses", s)])
+  let ops ← (← fArr j "ops").mapM opOf
+  pure (" ; ".intercalate ((histRun scripts ops).map fun (t, tr, o) => s!"{t}: " ++ showTrace tr o))
+
 def step (j : Json) : Option String :=
   match fArr j "terms" with
   | some terms => busStep terms
-  | none => do
+  | none => if (fArr j "ops").isSome then histStep j else do
     let target ← fNat j "target"
     let (tr, o) := toOperational target (← respsOf j)
     pure (showTrace tr o)
